@@ -82,8 +82,12 @@ def correspondence_name(prop):
     return "correspondence Conf: src/config.c vs Iauthd.Conf (confRead/confRegister/dump, variant %s) on all records" % model_variant()
 
 
+CEX = ["Iauthd.Conf.Cex.f9_pinned_use_after_free", "Iauthd.Conf.Cex.f9_fixed_ok"]
+
 THEOREMS = {
-    "C14": [],
+    "C14": ["Iauthd.Conf.wsGo_reread", "Iauthd.Conf.decodeQ_of_scanQ", "Iauthd.Conf.parseString_spec",
+            "Iauthd.Conf.entry_obj_spec", "Iauthd.Conf.parse_fuel_suffices", "Iauthd.Conf.parse_no_fault",
+            "Iauthd.Conf.load_total", "Iauthd.Conf.failed_load_inert", "Iauthd.Properties.C14"] + CEX,
     "C15": [],
     "C16": [],
 }
